@@ -57,4 +57,64 @@ theorem estimateOccRows_ok {α : Type} (ue : UeSeq F) (K : ℕ) (as : List α)
   unfold estimateOccRows
   exact mapM_map_ok _ obs res as h
 
+section
+variable (L : CisLaws F) [CharZero F]
+include L
+local notation "conj" => (CisOps.conj : F → F)
+
+/-- **Multi-user exactness** (plain / comb estimator), generic scalar field. -/
+theorem ue_estimate_exact_multiuser (ph p0 : List ℚ) (c0 D t : ℕ) (nrm : Bool) (nu : F)
+    (h0 : List F) (m K : ℕ) (others : List (ℕ × List ℚ × List F))
+    (hm : 0 < m) (hD : 0 < D) (ht : 0 < t) (hN : ph.length = D * t)
+    (hs0 : shiftedPhases ph c0 D = .ok p0)
+    (hnu : nrm = true → conj nu = nu ∧ nu * nu = (ph.length : F))
+    (hfit : h0.length ≤ K + 1) (hK : K + 1 ≤ t)
+    (hothers : ∀ o ∈ others, o.1 ≠ c0 ∧ shiftedPhases ph o.1 D = .ok o.2.1 ∧ o.2.2.length ≤ t) :
+    estimate1 (rowOf (seqValues p0 : List F) nrm nu) nrm m
+        ((others.map (fun o => observe (fftPad o.2.2 (m * ph.length)) m
+            (rowOf (seqValues o.2.1 : List F) nrm nu))).foldl addL
+          (observe (fftPad h0 (m * ph.length)) m (rowOf (seqValues p0 : List F) nrm nu))) K
+      = .ok (fftPad h0 (m * ph.length)) := by
+  have hNpos : 0 < ph.length := by rw [hN]; exact Nat.mul_pos hD ht
+  have hc0 : c0 < D := by
+    unfold shiftedPhases at hs0
+    by_contra hc; rw [if_neg hc] at hs0; cases hs0
+  have hp0 : p0.length = ph.length := by
+    rw [shiftedPhases_ok ph c0 D hc0] at hs0
+    injection hs0 with hs0
+    rw [← hs0]; simp
+  have hr : (rowOf (seqValues p0 : List F) nrm nu).length = ph.length := by
+    rw [rowOf_length, seqValues_length, hp0]
+  have hh0 : h0.length ≤ p0.length := by
+    rw [hp0, hN]
+    exact Nat.le_trans (Nat.le_trans hfit hK) (Nat.le_mul_of_pos_left _ hD)
+  have hown := ue_estimate_exact L p0 nrm nu h0 m K hm (by rw [hp0]; exact hNpos)
+    (by rw [hp0]; exact hnu) hfit hh0
+  rw [hp0] at hown
+  have key := estimate1_superposition (rowOf (seqValues p0 : List F) nrm nu)
+    (observe (fftPad h0 (m * ph.length)) m (rowOf (seqValues p0 : List F) nrm nu))
+    (fftPad h0 (m * ph.length)) nrm m K hm
+    (by rw [hr]; exact hNpos)
+    (others.map (fun o => observe (fftPad o.2.2 (m * ph.length)) m
+            (rowOf (seqValues o.2.1 : List F) nrm nu)))
+    (by rw [observe_length]) (by rw [fftPad_length, hr]) hown
+    (by
+      intro Y hY
+      obtain ⟨o, ho, rfl⟩ := List.mem_map.mp hY
+      obtain ⟨hne, hso, hlo⟩ := hothers o ho
+      have hco : o.1 < D := by
+        unfold shiftedPhases at hso
+        by_contra hc; rw [if_neg hc] at hso; cases hso
+      have hpo : o.2.1.length = ph.length := by
+        rw [shiftedPhases_ok ph o.1 D hco] at hso
+        injection hso with hso
+        rw [← hso]; simp
+      refine ⟨by rw [observe_length, rowOf_length, seqValues_length, hpo, hr], ?_⟩
+      rw [hr]
+      exact ue_estimate_reject L ph p0 o.2.1 c0 o.1 D t nrm nu o.2.2 m K hm hD ht hN hs0 hso
+        (fun h => hne h.symm) hnu hK hlo)
+  exact key
+
+end
+
 end PyPhysim.C18P
